@@ -75,6 +75,7 @@ def run(ctx):
     events = ['100', '200', '400', '800', '1500', '3000', '5000', '10000', 'MAR', 'HM', 'XC', '5K', '10K', '110H', '400H', '3000SC', '4x100', '4x400',
               'MILE', '60', '60H', 'HJ', 'PV', 'LJ', 'TJ', 'SP', 'DT', 'HT', 'JT', 'WT', 'DEC', 'HEP', 'PEN', '24HR', 'T30', 'H1', 'L3', 'BAL', '5M', '2MT',
               'BI', 'TRI', 'QUAD', 'HEX', 'OCT', 'ENN', 'HEN', 'DOD', 'ICO', 'PENI', 'PENWT',          # every multi-event code (spec-side list)
+              '110H106.7cm9.14m13.72m', '100H84cm', '100H33', '300LH', '110SH', 'mar', 'hm', 'mile', 'MARW', 'HMW', 'MILEW', '2MILE', '2mt', '5MW',
               '20KW', 'SLJ', 'OT', 'DT1.5K', '4xSSMR', '4xSMR', '4xSWR', '4xDMR', '4x1500', '3x800', '4x200', '4x1.5K', '2MILE', '1.5M', '3000W', '2000SC'] + LOOSE + rng.sample(lang, min(len(lang), 250 if ctx.quick() else 600))
     n = 400000 if ctx.quick() else 3000000
     # the event's distance from the model (Model/Codes.getDistance: MAR 42195, HM 21098, MILE 1609, SMR 1600, SSMR 800, SWR 1000,
@@ -83,6 +84,18 @@ def run(ctx):
     for ev, rep in zip(events, vlib.driver(['cd\tdist\t%s' % CC.cps((ev.split() or [ev])[0]) for ev in events])):
         f = rep.split()
         mdist[ev] = int(f[1]) if len(f) == 2 and f[0] == 'ok' and f[1].isdigit() else None
+    def spec_dist(ev):
+        # the distance a code states, read by the specification side for the spellings the library's estimator does not know
+        e = (ev.split() or [ev])[0]
+        m = re.match(r'^(\d{2,4})[lLsS]?[hH]', e) or re.match(r'^(\d{2,4})[sS][cC]', e)
+        if m: return int(m.group(1))
+        u = e.upper()
+        if u in ('MAR', 'MARW'): return 42195
+        if u in ('HM', 'HMW'): return 21098
+        if u in ('MILE', 'MILEW'): return 1609
+        m = re.match(r'^(\d)MILE$', u) or re.match(r'^([2345])MT$', u) or re.match(r'^(\d{1,3})MW$', u)
+        if m: return int(m.group(1)) * 1609
+        return None
     class EK2(Exception):
         pass
     stats = collections.Counter()
@@ -182,6 +195,13 @@ def run(ctx):
                 if len(parts) == 3 and int(parts[1]) >= 60: fail('minutes below 60 under hours', r, 'minutes >= 60 under hours')
                 dist = mdist.get(ev)
                 dur = athlib.parse_hms(r)
+                if not dist and spec_dist(ev) and dur is not None:
+                    # the library's distance estimator knows no distance for this valid code, so nothing was checked: judge
+                    # the returned time against the distance the code itself states (specification side)
+                    d2 = spec_dist(ev); lim2 = 11.0 if d2 <= 400 else 10.0
+                    if dur == 0 or d2 / dur > lim2 * 1.01 or d2 / dur < 0.5 * 0.99:
+                        fail('speed within 0.5 .. %.0f m/s for %d m' % (lim2, d2), '%s = %s' % (r, 'zero seconds' if dur == 0 else '%.3f m/s' % (d2 / dur)),
+                             'no speed check: the library has no distance for this valid code')
                 if dist and not dur:
                     fail('speed within 0.5 .. %.0f m/s for %d m' % (11.0 if dist <= 400 else 10.0, dist), '%s = zero seconds' % r, 'speed outside the sanity window')
                 if dist and dur:
